@@ -107,6 +107,8 @@ def oracle (r : Req) (impl : String) : String :=
       let ids := a.pages.filterMap pageIdOf
       let rch := reach r.g fuel [r.root] []
       if a.dc != a.pages.length then "fail:count-differs-from-listed-pages"
+      else if a.rc != toString a.dc && a.rc != "E" then
+        s!"fail:reader-page-count-{a.rc}-differs-from-listed-pages-{a.dc}"
       else if hasDup ids then "fail:page-listed-twice"
       else if ids.any (fun i => !(rch.contains i) || (r.g.get i).asDict.isNone) then
         "fail:listed-page-not-reachable-from-root"
@@ -145,7 +147,7 @@ def bigModel (n fan : Nat) : String :=
   | none => "dc=FUEL"
   | some flat =>
     let probes := (bigProbes fan flat.length).map fun i => " | " ++ showProbe i (getPage g flat i)
-    s!"rc={readerPageCount g root} dc={flat.length}" ++ String.join probes ++
+    s!"rc={match readerPageCount g root with | some n => toString n | none => "FUEL"} dc={flat.length}" ++ String.join probes ++
       (if flat.isEmpty then "" else " | oob=" ++ showPageRes (getPage g flat flat.length))
 
 /-- closed form = `C18_flatten_document_order_truncated` (flat index = leaves in document order,
@@ -153,7 +155,7 @@ cut at MAX_PAGES) + `C18_inherit_nearest` instantiated for this tree shape -/
 def bigFormula (n fan : Nat) : String :=
   let ninner := (n + fan - 1) / fan
   let dc := min n MAX_PAGES
-  let rc := if n ≤ MAX_PAGE_COUNT then n else ninner
+  let rc := dc     -- `PdfReader::page_count` walks the tree like `PdfDocument::page_count`
   let probes := (bigProbes fan dc).map fun i =>
     s!" | {i}:{3 + ninner + i} m=0,0,1224,1584 c=- r={((i / fan) % 4) * 90} z=none"
   s!"rc={rc} dc={dc}" ++ String.join probes ++ (if dc = 0 then "" else " | oob=E")
@@ -163,7 +165,7 @@ def handleBig (n fan : Nat) (impl : String) : String × String :=
   let model := if n ≤ 1500 then (let m := bigModel n fan; if m = formula then m else "FORMULA-MISMATCH " ++ m) else formula
   -- spec side: document order is leaf i = object 3+#inner+i with the root's MediaBox and the
   -- inner node's Rotate; a list cut at the cap is accepted ("a truncated list"), the reader's
-  -- count must be the number of leaves
+  -- count must be the length of that list
   let ninner := (n + fan - 1) / fan
   let expectPages := (formula.splitOn " | ").drop 1
   let implPages := (impl.splitOn " | ").drop 1
@@ -173,7 +175,7 @@ def handleBig (n fan : Nat) (impl : String) : String × String :=
     else match (impl.splitOn " | ").head?.map (·.splitOn " ") with
       | some [rc, dc] =>
         if dc != s!"dc={min n MAX_PAGES}" then s!"fail:page-count-{dc}-but-document-order-has-{n}"
-        else if rc != s!"rc={n}" then
+        else if rc != s!"rc={min n MAX_PAGES}" then
           (if n ≤ MAX_PAGE_COUNT then s!"fail:reader-page-count-{rc}-with-correct-Count-{n}"
            else s!"fail:reader-page-count-not-from-traversal got={dropStr 3 rc} kids={ninner} pages={n}")
         else "ok"
